@@ -21,7 +21,7 @@ func init() {
 	register(&simk.Prop{
 		ID:    "C22",
 		Level: "exploration",
-		Rule: "seeded backfills: a true chain of 3..24 blocks (block gaps from {0,1,W/3,W,W+1}, 0..2 transactions each with expiries valid at their block) and a forged chain (same heights and timestamps, other transactions, hash-linked among themselves and to the true chain below a fork height); the syncing node holds the target and 0..3 of its ancestors, the real Syncer + BlockFetcherClient + TimeValidityWindow run against 1..4 simulated peers chosen round-robin, each request answered by a pre-drawn behaviour: honest (the real BlockFetcherHandler over the true chain), error, time-out (slow), empty, truncated, reordered, duplicated, forged from the start, honest prefix then forged, garbage bytes in the middle, answer for another height; the engine meanwhile feeds 0..3 newer blocks (UpdateSyncTarget) at seeded simulated times; " +
+		Rule: "seeded backfills: a true chain of 3..24 blocks (block gaps from {0,1,W/3,W,W+1}, 0..2 transactions each with expiries valid at their block) and a forged chain (same heights and timestamps, other transactions, hash-linked among themselves and to the true chain below a fork height); the syncing node holds the target and 0..3 of its ancestors, the real Syncer + BlockFetcherClient + TimeValidityWindow run against 1..4 simulated peers chosen round-robin, each request answered by a pre-drawn behaviour: honest (the real BlockFetcherHandler over the true chain), error, time-out (slow), empty, truncated, reordered, duplicated, forged from the start, honest prefix then forged, garbage bytes in the middle, answer for another height, the genesis block alone or after a linked prefix; an eighth of the runs starts with an outage of 10..30 consecutive answers with nothing usable; the engine meanwhile feeds 0..3 newer blocks (UpdateSyncTarget) at seeded simulated times; " +
 			"oracle: every block saved to the block store is the true ancestor at its height, saved in descending contiguous order below the oldest locally held block, nothing else; after completion a repeat query on the tip marks every transaction of a true ancestor whose block timestamp is >= tip - W and that has not expired, and marks no transaction that occurs only in forged blocks; with at least one honest peer in the rotation the syncer completes within the simulated-time budget (requests x 2.5 s). non-trivial = >=1 forged/garbage/reordered answer and >=2 blocks fetched; distinct = scenario hashes",
 		Exec:        c22,
 		Real:        []string{"internal/validitywindow.Syncer (Start, UpdateSyncTarget, Wait)", "internal/validitywindow.BlockFetcherClient", "internal/validitywindow.BlockFetcherHandler (honest peers)", "internal/validitywindow.TimeValidityWindow", "canoto request/response encoding"},
@@ -175,10 +175,12 @@ const (
 	bPrefixThenForged
 	bGarbageMiddle
 	bOtherHeight
+	bGenesisOnly
+	bPrefixThenGenesis
 	nBehaviours
 )
 
-var bNames = []string{"honest", "error", "timeout", "empty", "truncated", "reordered", "duplicated", "forged", "prefix-then-forged", "garbage-middle", "other-height"}
+var bNames = []string{"honest", "error", "timeout", "empty", "truncated", "reordered", "duplicated", "forged", "prefix-then-forged", "garbage-middle", "other-height", "genesis-only", "prefix-then-genesis"}
 
 func (n *wNet) FetchBlocksFromPeer(ctx context.Context, peer ids.NodeID, req *validitywindow.BlockFetchRequest) (*validitywindow.BlockFetchResponse, error) {
 	n.mu.Lock()
@@ -232,6 +234,11 @@ func (n *wNet) FetchBlocksFromPeer(ctx context.Context, peer ids.NodeID, req *va
 		return &validitywindow.BlockFetchResponse{}, nil
 	case bForged:
 		return &validitywindow.BlockFetchResponse{Blocks: forgedFrom(req.BlockHeight, 4)}, nil
+	case bGenesisOnly:
+		// the (true) genesis block, which is not the block that was asked for
+		if req.BlockHeight > 0 {
+			return &validitywindow.BlockFetchResponse{Blocks: [][]byte{n.trueChain[0].bytes}}, nil
+		}
 	}
 	blocks, err := honest(req)
 	if err != nil {
@@ -257,6 +264,11 @@ func (n *wNet) FetchBlocksFromPeer(ctx context.Context, peer ids.NodeID, req *va
 		}
 		if req.BlockHeight >= uint64(keep) {
 			blocks = append(append([][]byte{}, blocks[:keep]...), forgedFrom(req.BlockHeight-uint64(keep), 3)...)
+		}
+	case bPrefixThenGenesis:
+		// a linked prefix, then genesis instead of the next ancestor
+		if len(blocks) > 1 && req.BlockHeight > uint64(len(blocks)) {
+			blocks = append(append([][]byte{}, blocks[:1+len(blocks)/2]...), n.trueChain[0].bytes)
 		}
 	case bGarbageMiddle:
 		if len(blocks) > 1 {
